@@ -209,6 +209,9 @@ func TestVerifRaftx(t *testing.T) {
 		"c02": {"C02": true}, "c03": {"C03": true}, "c06": {"C06": true}, "c07": {"C07": true, "C02": true, "C03": true},
 		"c17": {"C17": true}, "c18": {"C18": true},
 	}[part]
+	if os.Getenv("VERIF_ALL_TAGS") != "" {
+		monitorTags = nil // development aid: every monitor may alarm
+	}
 	defer func() {
 		suppressedMonitors.Range(func(k, v interface{}) bool {
 			res.Extra["monitor_failures_of_other_properties:"+k.(string)] = atomic.LoadInt64(v.(*int64))
